@@ -63,18 +63,7 @@ QUIRKS = {
 # known_findings.jsonl (property C01, status known) or adopts a fix, the module itself reports them the way vlib reports a
 # known finding: a KNOWN-FINDING line and an evidence entry on every run in which the real code shows them, exit code unaffected.
 # Anything else is a VIOLATION as usual.  Delete an entry here when it is listed in known_findings.jsonl or fixed.
-PENDING_FINDINGS = {
-    "C01:UPG:RollbackRevertsVersion:orphaned-upgrade-block":
-        "Blockchain.ResetTo (fork adoption, recovery, operator rollback) reverts neither the consensus configuration nor the stored consensus version: a node "
-        "that inserted an upgrade block which the network then orphaned holds the same chain as everybody else but runs (and has stored) the next consensus "
-        "version, validates every later block under other rules and refuses every later upgrade proposal",
-    "C01:UPG:RollbackRevertsGenesis:orphaned-newgenesis-block":
-        "Blockchain.ResetTo leaves the genesis info alone: after switching away from an orphaned NewGenesis block the node reports the orphaned block as "
-        "OldGenesis (until its next restart) where the others report the predefined genesis",
-    "C01:UPG:RecoveredGenesisByChain:crash-in-newgenesis-block-insertion-head-kept":
-        "AddBlock's genesis switch (WriteIntermediateGenesis) is not atomic with the head write and is not redone at start-up (the stored consensus version is, by "
-        "tryUpgrade(head)): a process that dies in between comes back with the NewGenesis block as its head but reports the old genesis for ever",
-}
+PENDING_FINDINGS = {}    # (the three findings of the build round are entries of known_findings.jsonl now)
 
 
 def _shards(ctx, drv, jobs, timeout):
